@@ -73,6 +73,24 @@ pub const REGS: &[Reg] = &[
         ok: true,
     },
     Reg {
+        prop: "C07",
+        name: "env-name-with-equals-sign-or-nul",
+        script: "r = set_env \"a=b\" c\nk = put 0\ns = set_env ${k} v\nw = set_env DSVERIF_REGRESSION_NAME ${k}\nu = unset_env \"x=y\"\nu2 = unset_env ${k}\nemit done\n",
+        side: &["nul\0inside"],
+        vars: &[("r", Some("false")), ("s", Some("false")), ("w", Some("false"))],
+        trace: Some(&[&["done"]]),
+        ok: true,
+    },
+    Reg {
+        prop: "C17",
+        name: "properties-key-starting-with-u-feff",
+        script: "m = map\nk = put 0\nx = map_put ${m} ${k} v1\nt = map_to_properties ${m}\nn = map\nx = map_load_properties ${n} ${t}\na = map_get ${n} ${k}\ns = map_size ${n}\nx = unset x t m n k\n",
+        side: &["\u{feff}"],
+        vars: &[("a", Some("v1")), ("s", Some("1"))],
+        trace: None,
+        ok: true,
+    },
+    Reg {
         prop: "C17",
         name: "properties-trailing-space-latin1-astral",
         script: "m = map\nv = put 0\nx = map_put ${m} k ${v}\nw = put 1\nx = map_put ${m} ${w} ${w}\nt = map_to_properties ${m}\nn = map\nx = map_load_properties ${n} ${t}\na = map_get ${n} k\nb = map_get ${n} ${w}\nx = unset x t m n v\n",
